@@ -122,7 +122,7 @@ class Check:
                 res.rule = rule_name
                 for f in res.findings:
                     f.rule = rule_name
-            if res.instances < floor:
+            if res.instances < floor and not res.findings:  # a rule that reports a violation may stop early
                 self.errors.append(
                     f"{rule_name}: only {res.instances} instances analysed, "
                     f"floor confirmed by hand is {floor} (anchor moved or rule blind)"
